@@ -134,6 +134,8 @@ def gamma(comp, truth, l, r):
             hit = l[col] is not None and r[col] is not None and l[col][:1] == r[col][:1]
         elif lab == "never":
             hit = l[col] == "never_seen" and l[col] is not None
+        elif lab == "asym":
+            hit = l[col] is not None and l[col] == truth["asym_val"]
         elif lab == "else":
             hit = True
         else:
@@ -147,16 +149,26 @@ def gvec(case, l, r):
     return [gamma(c, t, l, r) for c, t in zip(case["comparisons"], case["truth"])]
 
 
+def order_key(case, rec):
+    """the id the engines compare: the integer unique_id for a single table, otherwise the string
+    source_dataset || '-__-' || unique_id (so '10' < '9')"""
+    return rec["unique_id"] if len(case["tables"]) == 1 else f"{rec['__ds']}-__-{rec['unique_id']}"
+
+
+def orient(case, recs, i, j):
+    return (i, j) if order_key(case, recs[i]) < order_key(case, recs[j]) else (j, i)
+
+
 def rows_for(case, op):
     recs = records(case)
-    adm = admissible(case["link_type"], case["tables"])
+    adm = [orient(case, recs, i, j) for i, j in admissible(case["link_type"], case["tables"])]
     if op["op"] == "u":
         pairs = adm
     elif op["op"] == "mlabel":
         pairs = [(i, j) for i, j in adm if recs[i]["lab"] is not None and recs[i]["lab"] == recs[j]["lab"]]
     else:
         idx = {(r["__ds"], r["unique_id"]): k for k, r in enumerate(recs)}
-        pairs = [(idx[tuple(a)], idx[tuple(b)]) for a, b in op["pairs"]]
+        pairs = [orient(case, recs, idx[tuple(a)], idx[tuple(b)]) for a, b in op["pairs"]]   # lower_id_to_left_hand_side
     return [gvec(case, recs[i], recs[j]) for i, j in pairs]
 
 
@@ -261,17 +273,28 @@ def est_term(case, op, rows, before, after):
     return f"({coq_nat(kind)}, {coq_list([X3.c_gvec(g) for g in rows], '(list Z)')}, {X3.c_model(before)}, {X3.c_model(after)})"
 
 
+def recall_of(case):
+    """the recall as the decimal the caller wrote (0.3 means 3/10, not the double nearest to it)"""
+    return Fraction(str(case["prior_op"]["recall"]))
+
+
+def prior_boundary(case, obs):
+    """observed == recall x admissible pairs exactly: float rounding of that product decides the
+    guard either way; such cases are counted and skipped (DESIGN Appendix A: score at a threshold)"""
+    return obs == recall_of(case) * len(admissible(case["link_type"], case["tables"]))
+
+
 def prior_term(case, obs, impl):
     ns = [len(t) for t in case["tables"]]
     im = "None" if impl is None else f"(Some {coq_Q(impl)})"
     return (f"({coq_nat(LTCODE[case['link_type']])}, {coq_list([coq_nat(n) for n in ns], 'nat')}, {coq_Z(obs)}, "
-            f"{coq_Q(Fraction(case['prior_op']['recall']))}, {im})")
+            f"{coq_Q(recall_of(case))}, {im})")
 
 
 def prior_oracle(case, obs, impl):
     ns = [len(t) for t in case["tables"]]
     cart = len(admissible(case["link_type"], case["tables"]))
-    recall = Fraction(case["prior_op"]["recall"])
+    recall = recall_of(case)
     if obs > cart * recall:
         return [] if impl is None else [("recall inconsistent with the data was accepted", {"observed": obs, "admissible_pairs": cart, "recall": float(recall), "implementation": float(impl)})]
     want = Fraction(obs) / (recall * cart)
